@@ -51,6 +51,7 @@ METHODS = [
     ("quantise", "quantise"), ("quantise_note_lengths", "quantiseNoteLengths"),
     ("quantise_and_normalise", "quantiseAndNormalise"), ("scale", "scale"), ("transpose", "transpose"),
     ("get_sequence_duration", "getSequenceDuration"), ("is_empty", "isEmpty"), ("equals", "equals"),
+    ("get_sequence_channel", "getSequenceChannel"), ("is_channel_consistent", "isChannelConsistent"),
 ]
 LEAN_OF = dict(METHODS)
 
@@ -70,7 +71,7 @@ VIEW_LINKS = {
     ("rel", "pad"): "Unit", ("rel", "set_channel"): "Unit", ("rel", "split"): "List (List Msg)",
     ("rel", "scale"): "Unit", ("rel", "transpose"): "Bool", ("abs", "quantise"): "Unit",
     ("abs", "quantise_note_lengths"): "Unit", ("abs", "get_sequence_duration"): "Int", ("rel", "is_empty"): "Bool",
-    ("abs", "equals"): "Bool",
+    ("abs", "equals"): "Bool", ("abs", "get_sequence_channel"): "Int", ("abs", "is_channel_consistent"): "Bool",
 }
 # pure conversions: view -> other view
 CONVERSIONS = {("rel", "to_absolute_sequence"): "View.rel_to_absolute_sequence",
